@@ -94,10 +94,11 @@ Definition meaning (r : req) : list event :=
   [EContentLength (-1)%Z; EComplete].
 
 (* boundary state: where a message may start *)
-Definition boundary (p : pst) : Prop :=
-  st p = SMethodBefore /\ tok p = [] /\ proto p = [] /\ hkey p = [] /\ hval p = [] /\
+Definition boundaryc (cl : bool) (p : pst) : Prop :=
+  st p = (if cl then SClientProtoBefore else SMethodBefore) /\ tok p = [] /\ proto p = [] /\ hkey p = [] /\ hval p = [] /\
   h_te p = [] /\ h_cl p = [] /\ h_tr p = [] /\ trailer p = [] /\ chunked p = false /\
-  hexists p = false /\ is_client p = false.
+  hexists p = false /\ is_client p = cl /\ status p = [].
+Definition boundary : pst -> Prop := boundaryc false.   (* server side *)
 
 (* ---------- pieces ---------- *)
 Lemma beq_eq a : forall b, beq a b = true -> a = b.
@@ -208,8 +209,8 @@ Lemma step_hvalue_cr p : st p = SHeaderValue -> hval p = [] ->
   stepb p CR = header_done CR p SHeaderValueLF.
 Proof. intros H1 H2. unfold stepb. rewrite H1. reflexivity. Qed.
 
-Definition hdr_state (p : pst) : Prop :=
-  st p = SHeaderKeyBefore /\ tok p = [] /\ hkey p = [] /\ hval p = [].
+Definition hdr_state (p : pst) : Prop :=     (* tok is irrelevant here: the next byte resets it *)
+  st p = SHeaderKeyBefore /\ status p = [] /\ hkey p = [] /\ hval p = [].
 
 Lemma Forall_spaces n : Forall (fun c => c = SP) (spaces n).
 Proof. induction n; cbn; constructor; auto. Qed.
@@ -290,10 +291,10 @@ Proof.
 Qed.
 
 (* ---------- end of the header block, no framing headers ---------- *)
-Lemma run_end p rest acc :
+Lemma run_end cl p rest acc :
   hdr_state p -> h_te p = [] -> h_cl p = [] -> h_tr p = [] -> trailer p = [] ->
-  chunked p = false -> is_client p = false -> proto p = [] ->
-  exists p', boundary p' /\
+  chunked p = false -> is_client p = cl -> proto p = [] ->
+  exists p', boundaryc cl p' /\
     run_bytes p (CR :: LF :: rest) acc = run_bytes p' rest (acc ++ [EContentLength (-1)%Z; EComplete]).
 Proof.
   intros (Hs & Ht & Hk & Hv) H1 H2 H3 H4 H5 H6 H7.
@@ -306,7 +307,7 @@ Proof.
   { unfold stepb, q. cbn. rewrite H5. reflexivity. }
   rewrite (run_step _ _ _ _ _ _ S2), <- app_assoc. cbn [app].
   eexists; split; [|reflexivity].
-  unfold boundary, handle_message, q, after; cbn. rewrite H6. repeat split; auto.
+  unfold boundaryc, handle_message, q, after; cbn. rewrite H6. destruct cl; repeat split; auto.
 Qed.
 
 (* ---------- the round trip ---------- *)
@@ -316,7 +317,7 @@ Theorem c07_roundtrip_nobody r p rest :
     run_bytes p (render r ++ rest) [] = run_bytes p' rest (meaning r).
 Proof.
   intros (Hm & (c1 & t1 & Ht1 & Hc1 & Hf1) & (c2 & t2 & Ht2 & Hc2 & Hc2' & Hf2) & Hh)
-         (Bs & Bt & Bp & Bk & Bv & B1 & B2 & B3 & B4 & B5 & B6 & B7).
+         (Bs & Bt & Bp & Bk & Bv & B1 & B2 & B3 & B4 & B5 & B6 & B7 & B8).
   unfold render. rewrite Ht1, Ht2. repeat (rewrite <- app_assoc; cbn [app]).
   rewrite run_method by auto.
   rewrite run_target by auto.
@@ -326,7 +327,7 @@ Proof.
   match goal with |- context[run_bytes q _ ?a] =>
     destruct (run_hdrs (rhdrs r) q (CR :: LF :: rest) a Hq Hh)
       as (q1 & Hq1 & F1 & F2 & F3 & F4 & F5 & F6 & F7 & Hrun);
-    destruct (run_end q1 rest (a ++ map (fun h => EHeader (canonical (hname h)) (hvalue h)) (rhdrs r)) Hq1)
+    destruct (run_end false q1 rest (a ++ map (fun h => EHeader (canonical (hname h)) (hvalue h)) (rhdrs r)) Hq1)
       as (p' & Hb & Hrun'); try (unfold q in *; cbn in *; congruence)
   end.
   exists p'. split; auto. rewrite Hrun, Hrun'. unfold meaning. rewrite Ht1, Ht2.
